@@ -6,8 +6,12 @@
    snapshot; [prop_trace] evaluates the four clauses of the property on the real
    cluster after every step (ok_coloc, ok_cap, ok_pres, ok_repair).  All theorems
    quantify over all snapshots and all accepted plans (induction over the plan).
-   Six defects of the Go planners are confirmed: the clauses they break are stated
-   as [_refuted] (witness evaluated in the faithful model) and [_partial] (under the
+   Six defects of the Go planners were confirmed; three are repaired in the tree
+   (repair counts its planned copies, -retry does not repeat a successful repair,
+   isGoodMove is consulted for replication 000) and the model follows the repaired code:
+   their clauses are now full theorems.  For the three that remain (k0 balance capacity,
+   k1 evacuate capacity, k2 isGoodMove rack count) the broken clauses are stated as
+   [_refuted] (witness evaluated in the faithful model) and [_partial] (under the
    decidable trigger of the finding being off). *)
 From Coq Require Import List NArith ZArith Bool.
 From SW Require Import model.VolPlanner proof.VolPlannerProofs proof.VolPlannerProofs2
@@ -47,47 +51,30 @@ Proof. exact (ex_intro _ _ (ex_intro _ _ (ex_intro _ _ (ex_intro _ _ w5_fn_facts
 Print Assumptions c15_good_move_preserves_refuted.
 
 (* ===== c15_no_colocation ===== *)
-Theorem c15_no_colocation_balance_partial : forall limit s colls dts tr w',
-  wf_snap s -> trig_coloc_000 s = false -> phases_ok (phases_of colls dts) = true ->
+(* FULL (over well-formed snapshots, for all three planners) *)
+Theorem c15_no_colocation_balance : forall limit s colls dts tr w',
+  wf_snap s -> phases_ok (phases_of colls dts) = true ->
   balance_accepts limit s colls dts tr = Some w' ->
   ok_coloc (prop_trace s (init_world s) tr) = true.
-Proof. exact (fun limit s colls dts tr w' H1 H2 H3 H4 => proj1 (balance_accepts_safe limit s colls dts tr w' H1 H2 H3 H4)). Qed.
-Print Assumptions c15_no_colocation_balance_partial.
+Proof. exact (fun limit s colls dts tr w' H1 H3 H4 => proj1 (balance_accepts_safe limit s colls dts tr w' H1 H3 H4)). Qed.
+Print Assumptions c15_no_colocation_balance.
 
-Theorem c15_no_colocation_evacuate_partial : forall s this skip evs,
-  wf_snap s -> trig_coloc_000 s = false -> evac_accepts s this skip evs = true ->
+Theorem c15_no_colocation_evacuate : forall s this skip evs,
+  wf_snap s -> evac_accepts s this skip evs = true ->
   ok_coloc (prop_trace s (init_world s) (evac_steps this evs)) = true.
-Proof. exact (fun s this skip evs H1 H2 H3 => proj1 (evac_accepts_safe s this skip evs H1 H2 H3)). Qed.
-Print Assumptions c15_no_colocation_evacuate_partial.
+Proof. exact (fun s this skip evs H1 H3 => proj1 (evac_accepts_safe s this skip evs H1 H3)). Qed.
+Print Assumptions c15_no_colocation_evacuate.
 
-(* fix.replication without -retry: FULL over well-formed snapshots *)
-Theorem c15_no_colocation_repair : forall s evs, wf_snap s -> fix_accepts s 0 evs = true ->
+Theorem c15_no_colocation_repair : forall s retry evs, wf_snap s -> fix_accepts s retry evs = true ->
   ok_coloc (prop_trace s (init_world s) (fix_steps evs)) = true.
-Proof. exact (fun s evs H1 H2 => proj1 (fix_accepts_safe s evs H1 H2)). Qed.
+Proof. exact (fun s retry evs H1 H2 => proj1 (fix_accepts_safe s retry evs H1 H2)). Qed.
 Print Assumptions c15_no_colocation_repair.
-
-(* REFUTED: (a) balance moves a 000 volume onto the server holding its read-only copy;
-            (b) -retry 1 sends the same copy to the same server twice. *)
-Theorem c15_no_colocation_refuted :
-  (exists limit s colls dts tr, wf_snap s /\ is_some (balance_accepts limit s colls dts tr) = true /\
-      ok_coloc (prop_trace s (init_world s) tr) = false) /\
-  (exists s retry evs, wf_snap s /\ fix_accepts s retry evs = true /\
-      ok_coloc (prop_trace s (init_world s) (fix_steps evs)) = false).
-Proof.
-  exact (conj
-    (ex_intro _ 1000%N (ex_intro _ w4_snap (ex_intro _ [None] (ex_intro _ [0%N] (ex_intro _ w4_plan
-       (conj (proj1 (wf_snapb_iff _) (proj1 w4_facts)) (proj2 w4_facts)))))))
-    (ex_intro _ w3_snap (ex_intro _ 1 (ex_intro _ w3_events
-       (conj (proj1 (wf_snapb_iff _) (proj1 w3_facts))
-             (conj (proj1 (proj2 w3_facts)) (proj1 (proj2 (proj2 w3_facts))))))))).
-Qed.
-Print Assumptions c15_no_colocation_refuted.
 
 (* ===== c15_capacity ===== *)
 (* by the planner's OWN bookkeeping: FULL *)
-Theorem c15_capacity_own_repair : forall s vid from to, fix_copy_ok s vid from to = true ->
-  exists src t, In src (reps_of s vid) /\ l_node (r_loc src) = from /\ find_node s to = Some t /\
-    (0 < cap_free t (v_dt (r_info src)))%Z.
+Theorem c15_capacity_own_repair : forall s planned vid from to, fix_copy_ok s planned vid from to = true ->
+  exists src t, In src (reps_of s vid) /\ l_node (r_loc src) = from /\ In t s /\ n_id t = to /\
+    (0 < cap_free t (v_dt (r_info src)) - planned to (v_dt (r_info src)))%Z.
 Proof. exact fix_copy_own_capacity. Qed.
 Print Assumptions c15_capacity_own_repair.
 
@@ -116,48 +103,44 @@ Theorem c15_capacity_evacuate_partial : forall s this skip evs,
 Proof. exact evac_accepts_capacity. Qed.
 Print Assumptions c15_capacity_evacuate_partial.
 
-Theorem c15_capacity_repair_partial : forall s retry evs, wf_snap s ->
-  trig_fix_cap s retry = false -> fix_accepts s retry evs = true ->
+(* repair, by the true count: FULL (VolumeCount of a disk >= number of its volumes) *)
+Theorem c15_capacity_repair : forall s retry evs, wf_snap s -> counts_okb s = true ->
+  fix_accepts s retry evs = true ->
   ok_cap (prop_trace s (init_world s) (fix_steps evs)) = true.
 Proof. exact fix_accepts_capacity. Qed.
-Print Assumptions c15_capacity_repair_partial.
+Print Assumptions c15_capacity_repair.
 
-(* REFUTED for all three planners *)
+(* REFUTED for balance and evacuate *)
 Theorem c15_capacity_refuted :
   (exists limit s colls dts tr, wf_snap s /\ is_some (balance_accepts limit s colls dts tr) = true /\
       ok_cap (prop_trace s (init_world s) tr) = false) /\
   (exists s this skip evs, wf_snap s /\ evac_accepts s this skip evs = true /\
-      ok_cap (prop_trace s (init_world s) (evac_steps this evs)) = false) /\
-  (exists s evs, wf_snap s /\ fix_accepts s 0 evs = true /\
-      ok_cap (prop_trace s (init_world s) (fix_steps evs)) = false).
+      ok_cap (prop_trace s (init_world s) (evac_steps this evs)) = false).
 Proof.
   exact (conj
     (ex_intro _ 1000%N (ex_intro _ w0_snap (ex_intro _ [None] (ex_intro _ [0%N] (ex_intro _ w0_plan
        (conj (proj1 (wf_snapb_iff _) (proj1 w0_facts)) (proj2 w0_facts)))))))
-    (conj
-      (ex_intro _ w1_snap (ex_intro _ 1%N (ex_intro _ true (ex_intro _ w1_events
-         (conj (proj1 (wf_snapb_iff _) (proj1 w1_facts)) (proj2 w1_facts))))))
-      (ex_intro _ w2_snap (ex_intro _ w2_events
-         (conj (proj1 (wf_snapb_iff _) (proj1 w2_facts)) (proj2 w2_facts)))))).
+    (ex_intro _ w1_snap (ex_intro _ 1%N (ex_intro _ true (ex_intro _ w1_events
+       (conj (proj1 (wf_snapb_iff _) (proj1 w1_facts)) (proj2 w1_facts))))))).
 Qed.
 Print Assumptions c15_capacity_refuted.
 
 (* ===== c15_placement_preserved ===== *)
 Theorem c15_placement_preserved_balance_partial : forall limit s colls dts tr w',
-  wf_snap s -> trig_coloc_000 s = false -> phases_ok (phases_of colls dts) = true ->
+  wf_snap s -> phases_ok (phases_of colls dts) = true ->
   balance_accepts limit s colls dts tr = Some w' -> trig_rp_xy s = false ->
   ok_pres (prop_trace s (init_world s) tr) = true.
-Proof. exact (fun limit s colls dts tr w' H1 H2 H3 H4 => proj2 (balance_accepts_safe limit s colls dts tr w' H1 H2 H3 H4)). Qed.
+Proof. exact (fun limit s colls dts tr w' H1 H3 H4 => proj2 (balance_accepts_safe limit s colls dts tr w' H1 H3 H4)). Qed.
 Print Assumptions c15_placement_preserved_balance_partial.
 
 Theorem c15_placement_preserved_evacuate_partial : forall s this skip evs,
-  wf_snap s -> trig_coloc_000 s = false -> evac_accepts s this skip evs = true -> trig_rp_xy s = false ->
+  wf_snap s -> evac_accepts s this skip evs = true -> trig_rp_xy s = false ->
   ok_pres (prop_trace s (init_world s) (evac_steps this evs)) = true.
-Proof. exact (fun s this skip evs H1 H2 H3 => proj2 (evac_accepts_safe s this skip evs H1 H2 H3)). Qed.
+Proof. exact (fun s this skip evs H1 H3 => proj2 (evac_accepts_safe s this skip evs H1 H3)). Qed.
 Print Assumptions c15_placement_preserved_evacuate_partial.
 
 Theorem c15_placement_preserved_refuted : exists s this skip evs,
-  wf_snap s /\ evac_accepts s this skip evs = true /\ trig_coloc_000 s = false /\
+  wf_snap s /\ evac_accepts s this skip evs = true /\
   ok_pres (prop_trace s (init_world s) (evac_steps this evs)) = false.
 Proof.
   exact (ex_intro _ w5_snap (ex_intro _ 3%N (ex_intro _ true (ex_intro _ w5_events
@@ -166,28 +149,17 @@ Qed.
 Print Assumptions c15_placement_preserved_refuted.
 
 (* ===== c15_repair_satisfies ===== *)
-(* without -retry every copy of an accepted repair plan keeps its volume's replica set
+(* every copy of an accepted repair plan (any -retry) keeps its volume's replica set
    completable to a valid layout, and a purge never goes below the copy count.  FULL. *)
-Theorem c15_repair_satisfies : forall s evs, wf_snap s -> fix_accepts s 0 evs = true ->
+Theorem c15_repair_satisfies : forall s retry evs, wf_snap s -> fix_accepts s retry evs = true ->
   ok_repair (prop_trace s (init_world s) (fix_steps evs)) = true /\
   ok_pres (prop_trace s (init_world s) (fix_steps evs)) = true.
-Proof. exact (fun s evs H1 H2 => proj2 (fix_accepts_safe s evs H1 H2)). Qed.
+Proof. exact (fun s retry evs H1 H2 => proj2 (fix_accepts_safe s retry evs H1 H2)). Qed.
 Print Assumptions c15_repair_satisfies.
-
-(* REFUTED with -retry: the repeated copy breaks the setting *)
-Theorem c15_repair_satisfies_refuted : exists s retry evs,
-  wf_snap s /\ fix_accepts s retry evs = true /\
-  ok_repair (prop_trace s (init_world s) (fix_steps evs)) = false.
-Proof.
-  exact (ex_intro _ w3_snap (ex_intro _ 1 (ex_intro _ w3_events
-           (conj (proj1 (wf_snapb_iff _) (proj1 w3_facts))
-                 (conj (proj1 (proj2 w3_facts)) (proj2 (proj2 (proj2 w3_facts)))))))).
-Qed.
-Print Assumptions c15_repair_satisfies_refuted.
 
 (* ===== non-vacuity: accepted, non-empty plans with every hypothesis satisfied ===== *)
 Example c15_example_balance :
-  wf_snapb ex_snap = true /\ trig_coloc_000 ex_snap = false /\ trig_rp_xy ex_snap = false /\
+  wf_snapb ex_snap = true /\ trig_rp_xy ex_snap = false /\
   phases_ok (phases_of [None] [0%N; 1%N]) = true /\ phases_ok (phases_of [Some 1%N; Some 2%N] [0%N; 1%N]) = true /\
   is_some (balance_accepts 1000 ex_snap [None] [0%N] ex_plan) = true /\
   trig_balance_cap 1000 ex_snap (phases_of [None] [0%N]) (init_world ex_snap) ex_plan = false /\
@@ -196,6 +168,18 @@ Proof. vm_compute. repeat split; reflexivity. Qed.
 
 Example c15_example_evacuate_repair :
   evac_accepts ex_snap 1 true [EMove 1 0 2; EMove 2 0 2; ESkip 3]%N = true /\ trig_evac_cap ex_snap 1 = false /\
-  wf_snapb ex_fix_snap = true /\ fix_accepts ex_fix_snap 0 [FCopy 1 1 3]%N = true /\
-  trig_fix_cap ex_fix_snap 0 = false.
+  wf_snapb ex_fix_snap = true /\ counts_okb ex_fix_snap = true /\
+  fix_accepts ex_fix_snap 0 [FCopy 1 1 3]%N = true.
+Proof. vm_compute. repeat split; reflexivity. Qed.
+
+(* the witnesses of the three repaired defects: the old plans are no longer accepted,
+   the plans of the repaired code are, and every clause holds on them *)
+Example c15_example_repaired :
+  (fix_accepts w2_snap 0 [FCopy 1 1 2; FCopy 2 1 2]%N = false /\ fix_accepts w2_snap 0 w2_events = true /\
+   v4_all (prop_trace w2_snap (init_world w2_snap) (fix_steps w2_events)) = true) /\
+  (fix_accepts w3_snap 1 [FCopy 1 1 2; FCopy 1 1 2]%N = false /\ fix_accepts w3_snap 1 w3_events = true /\
+   v4_all (prop_trace w3_snap (init_world w3_snap) (fix_steps w3_events)) = true) /\
+  (is_some (balance_accepts 1000 w4_snap [None] [0%N] [Move 1 0 1 2]%N) = false /\
+   is_some (balance_accepts 1000 w4_snap [None] [0%N] w4_plan) = true /\
+   v4_all (prop_trace w4_snap (init_world w4_snap) w4_plan) = true).
 Proof. vm_compute. repeat split; reflexivity. Qed.
